@@ -55,6 +55,11 @@ def messages():
                           'DE4': isogen.text(1003, 5, isogen.alphabets('ascii')[0]), 'DE5': 'abc',
                           'DE6': 10 ** 29 + 7, 'DE11': 'xyz', 'DE70': isogen.text(1002, 6, isogen.alphabets('ascii')[0]),
                           'DE127': 10 ** 59 + 1}),
+        # the administrative messages of a clearing file: header (function code 697) and trailer (695, with counts)
+        'header': ('PKG', {'MTI': '1644', 'DE24': '697', 'PDS0105': '0012406010000011111000001', 'PDS0122': 'T',
+                           'DE71': 1}),
+        'trailer': ('PKG', {'MTI': '1644', 'DE24': '695', 'PDS0105': '0012406010000011111000001',
+                            'PDS0301': '0000000000012345', 'PDS0306': '00000002', 'DE71': 3}),
         'zero_len': ('PKG', {'MTI': '1240', 'DE3': '123456'}),
         'gen': ('GEN3', None),
     }
